@@ -11,8 +11,11 @@ Decided statically (DESIGN.md section 5, C15):
            driver is abstracted to a sequence of FIELD(width,value) / RAW(object,width) / DATA(container,bytes)
            / REPEAT(count, element signature); writer and reader of the same type are paired item by item.
            Raw object images are only allowed for trivially copyable types (compile witness).
-  R-C15-3  stale pointer: a pointer obtained from buffer->begin()/data() is never used after a later resize.
+  R-C15-3  stale pointer: a pointer obtained from buffer->begin()/data() is never used after a later resize; no data
+           member caches a pointer or size of the shared (growable) buffer across calls.
   R-C15-4  WriteSizeCalculator::write adds exactly `size` on every path.
+  R-C15-5  size prediction: for every written probe type the operator selected when the static stream type is
+           WriteSizeCalculator is the one selected for a WriteStream, or accounts exactly the same byte count.
 Not decided: equality of the values after a round trip (needs the run-time contents), wrap-around of
 `cursor + size` for sizes near SIZE_MAX, behaviour after user code modified the public cursor/buffer members.
 """
@@ -99,7 +102,23 @@ class BufEngine:
     def is_buf_sp(self, e):
         """is e the shared_ptr member holding the buffer"""
         e = self.tu.strip(e, casts=True)
-        return e is not None and self.buf_field is not None and self.tu.member_of_this(e) == self.buf_field
+        if e is None:
+            return False
+        if self.buf_field is not None and self.tu.member_of_this(e) == self.buf_field:
+            return True
+        if e.get('kind') == 'DeclRefExpr':
+            p = self.params.get(e.get('referencedDecl', {}).get('id'))
+            if p is not None and p['ct'].replace('const ', '').startswith('std::shared_ptr<' + UTIL):
+                return True
+        return False
+
+    def derived_from_buffer(self, v):
+        """does the value depend on the current storage / size of the buffer object"""
+        if is_ptr(v) and v[1] == 'buf':
+            return True
+        if isinstance(v, Poly) and ('sym', 'capacity') in v.atoms():
+            return True
+        return False
 
     def is_buf_obj(self, e, d=0):
         """does e designate the array object the buffer member points to: buffer->, *buffer, buffer.get()"""
@@ -235,7 +254,9 @@ class BufEngine:
             return ('var', e.get('referencedDecl', {}).get('id'))
         return None
 
-    def assign(self, st, tgt, v):
+    def assign(self, st, tgt, v, node=None):
+        if tgt[0] == 'field' and tgt[1] != self.buf_field and self.derived_from_buffer(v):
+            st.events.append(('cache', tgt[1], node, v))
         if tgt[0] == 'field':
             if not isinstance(v, Poly) and tgt[1] in st.fields:
                 raise Undecided('member `%s` receives a value without an integer normal form' % tgt[1])
@@ -263,7 +284,7 @@ class BufEngine:
             tgt = self.lhs_target(ks[0])
             if tgt is None:
                 raise Undecided('assignment to `%s` is not understood' % tu.show(ks[0]))
-            self.assign(st, tgt, self.val(ks[1], st))
+            self.assign(st, tgt, self.val(ks[1], st), n['id'])
             return None
         if k == 'CompoundAssignOperator':
             ks = tu.kids(n)
@@ -401,6 +422,15 @@ class BufEngine:
             for e in blk.el:
                 if e[0] == 'I':
                     init = tu.node(e[1])
+                    if init is not None and e[3] not in ('<base>', self.buf_field) and e[2] is not None:
+                        x0 = init
+                        if x0.get('kind') != 'CXXDefaultInitExpr':
+                            try:
+                                v0 = self.val(x0, st)
+                            except Undecided:
+                                v0 = None
+                            if self.derived_from_buffer(v0):
+                                st.events.append(('cache', e[3], e[1], v0))
                     if e[3] in st.fields and init is not None:
                         x = init
                         if x.get('kind') == 'CXXDefaultInitExpr':
@@ -814,6 +844,71 @@ def check_accessors(ctx, tu):
     return n
 
 
+def check_no_cached_buffer_state(ctx, tu, seen):
+    """R-C15-3 (members): the array behind the shared_ptr can be grown / reallocated by its writer between two
+    calls, so no data member may hold a pointer or size obtained from it; every call must ask the buffer again."""
+    R = 'R-C15-3'
+    n = 0
+    for f in sorted(tu.functions.values(), key=lambda x: (x['f'], x['l'])):
+        if f['dep'] or f.get('rec') not in (NET + 'BufferReader', NET + 'BufferWriter', NET + 'FixedBufferWriter') \
+                or tu.cfg(f) is None or f.get('implicit') or f.get('defaulted'):
+            continue
+        sig = (f['q'], f['fty'], tu.fn_file(f))
+        if sig in seen:
+            continue
+        seen.add(sig)
+        eng = BufEngine(tu, f)
+        if eng.buf_field is None:
+            continue
+        rec = tu.records.get(f.get('recid'))
+        fields = {fd['name']: Poly.atom(('field', fd['name'] + '0')) for fd in rec['fields']
+                  if fd['name'] != eng.buf_field and fd['ct'] in ('unsigned long', 'unsigned int', 'int', 'long')}
+        inst = '%s %s: members' % (short(f['q']), f['fty'])
+        caches = []
+        try:
+            outs = eng.run(St(fields, Poly.atom(('sym', 'capacity'))))
+            for kind, st, rv in outs:
+                caches += [e for e in st.events if e[0] == 'cache']
+        except Undecided:
+            # fall back to the expressions themselves: a member initialiser / assignment that contains a call of
+            # begin/data/size/end on the buffer
+            g = tu.cfg(f)
+            for b in g.blocks.values():
+                for e in b.el:
+                    tgt, src = None, None
+                    if e[0] == 'I' and e[2] is not None and e[3] != eng.buf_field:
+                        tgt, src = e[3], tu.node(e[1])
+                    elif e[0] == 'S':
+                        x = tu.node(e[1])
+                        if x is not None and x.get('kind') == 'BinaryOperator' and x.get('opcode') == '=':
+                            nm = tu.member_of_this(tu.kids(x)[0])
+                            if nm is not None and nm != eng.buf_field:
+                                tgt, src = nm, tu.kids(x)[1]
+                    if tgt is None or src is None:
+                        continue
+                    for y in tu.walk(src):
+                        if y.get('kind') == 'CXXMemberCallExpr':
+                            sd, obj, args = tu.call_parts(y)
+                            if obj is not None and eng.is_buf_obj(obj) and sd.get('q', '').split('::')[-1] in (
+                                    'begin', 'data', 'size', 'end', 'cbegin', 'cend'):
+                                caches.append(('cache', tgt, y['id'], None))
+        n += 1
+        if caches and f.get('rec') == NET + 'FixedBufferWriter':
+            ctx.undecided(R, inst, 'member `%s` caches state of the fixed-size buffer; whether the FixedArray can be replaced '
+                          'behind it is not tracked' % caches[0][1], tu.fn_loc(f))
+        elif caches:
+            for _, fld, nid, v in caches:
+                what = 'a pointer into the buffer storage' if (v is None or is_ptr(v)) and not isinstance(v, Poly) else 'the buffer size'
+                ctx.violation(R, inst, 'member `%s` is set to %s; the array behind the shared_ptr is grown (and its storage '
+                              'moved) by the writer that shares it, so the stored value goes stale between calls: a reader '
+                              'attached before further writes reads freed memory / reports end() at the old size'
+                              % (fld, what), tu.loc(nid) if nid else tu.fn_loc(f),
+                              key='%s|%s|%s|cached-buffer-state' % (R, tu.fn_file(f), short(f.get('rec'))))
+        else:
+            ctx.ok(R, inst, 'no member receives a value derived from buffer->begin()/data()/size()', tu.fn_loc(f))
+    return n
+
+
 TRANSFER_FNS = [
     (NET + 'BufferReader::read', 'read', 'rkcommon/networking/DataStreaming.cpp'),
     (NET + 'FixedBufferWriter::write', 'write', 'rkcommon/networking/DataStreaming.cpp'),
@@ -846,8 +941,13 @@ def check_buffers(ctx, tus):
     n1 += check_accessors(ctx, tus['rkcommon/networking/DataStreaming.cpp'])
     ctx.floor('R-C15-1', n1, 18, 'paths of read/getView/write/reserve/BufferWriter::write + 4 accessors + 2 constructors: 22 on the pinned tree')
     ctx.floor('R-C15-4', n4, 1, 'WriteSizeCalculator::write')
+    seen = set()
+    nm = 0
+    for tu in tus.values():
+        nm += check_no_cached_buffer_state(ctx, tu, seen)
     n3 = sum(1 for o in ctx.obl if o['rule'] == 'R-C15-3')
-    ctx.floor('R-C15-3', n3, 1, 'the memcpy after the resize in BufferWriter::write')
+    ctx.floor('R-C15-3', n3 - nm, 1, 'the memcpy after the resize in BufferWriter::write')
+    ctx.floor('R-C15-3', nm, 10, 'member functions and constructors of BufferReader / BufferWriter / FixedBufferWriter: 12')
 
 
 # =====================================================================================================
@@ -927,6 +1027,8 @@ def subst_items(items, root):
             out.append(('RESIZE', subst_path(it[1], root), subst_poly(it[2], root), it[3]))
         elif k == 'REPEAT':
             out.append(('REPEAT', subst_poly(it[1], root), subst_path(it[2], root), subst_items(it[3], root), it[4]))
+        elif k == 'COUNT':
+            out.append(('COUNT', subst_poly(it[1], root), it[2]))
     return out
 
 
@@ -944,6 +1046,8 @@ def show_items(items):
             out.append('RESIZE(%s,%s)' % (show_path(it[1]), show(it[2])))
         elif k == 'REPEAT':
             out.append('REPEAT(%s,[%s])' % (show(it[1]), ' '.join(show_items(it[3]))))
+        elif k == 'COUNT':
+            out.append('COUNT(%s)' % show(it[1]))
     return out
 
 
@@ -970,7 +1074,7 @@ class SigBuilder:
         if len(ps) != 2:
             raise Undecided('stream operator with %d parameters' % len(ps))
         st_t = bare_type(ps[0]['ct'])
-        if st_t == NET + 'WriteStream':
+        if st_t in (NET + 'WriteStream', NET + 'WriteSizeCalculator', NET + 'BufferWriter', NET + 'FixedBufferWriter'):
             direction = 'w'
         elif st_t == NET + 'ReadStream':
             direction = 'r'
@@ -1212,10 +1316,22 @@ class SigBuilder:
             return [('REPEAT', count, base, sub, tu.loc(n))]
         if k in ('CXXOperatorCallExpr', 'CXXMemberCallExpr', 'ExprWithCleanups'):
             return self.expr(tu.strip(n), env)
+        if k in ('CompoundAssignOperator', 'BinaryOperator'):
+            # direct bookkeeping on the byte counter of a WriteSizeCalculator: buf.writtenSize += n
+            l, r = tu.kids(n)
+            ls = tu.strip(l)
+            if ls is not None and ls.get('kind') == 'MemberExpr' and ls.get('name') == 'writtenSize' and tu.kids(ls) and \
+                    self.is_stream(tu.strip(tu.kids(ls)[0], casts=True), env):
+                v = self.length(r, env)
+                if v is None:
+                    raise Undecided('`%s`: amount has no normal form' % tu.show(n))
+                if n.get('opcode') == '+=':
+                    return [('COUNT', v, tu.loc(n))]
+                raise Undecided('`%s` overwrites the byte counter' % tu.show(n))
         raise Undecided('statement `%s` in a stream operator is not modelled' % k)
 
     def is_stream(self, e, env):
-        e = self.tu.strip(e)
+        e = self.tu.strip(e, casts=True)
         return e is not None and e.get('kind') == 'DeclRefExpr' and e.get('referencedDecl', {}).get('id') == env['stream']
 
     def expr(self, n, env):
@@ -1301,6 +1417,32 @@ class SigBuilder:
         raise Undecided('expression `%s` in a stream operator is not modelled' % tu.show(n))
 
 
+def total_bytes(items):
+    """closed form (Poly over the sizes of the streamed value) of the number of bytes a signature stands for;
+    ('var', why) when the count depends on the individual elements (strings / vectors inside a container)"""
+    tot = Poly.const(0)
+    for it in items:
+        k = it[0]
+        if k in ('RAW',):
+            tot = tot + it[2]
+        elif k == 'FIELD':
+            tot = tot + it[1]
+        elif k == 'DATA':
+            tot = tot + it[2]
+        elif k == 'COUNT':
+            tot = tot + it[1]
+        elif k == 'REPEAT':
+            sub = total_bytes(it[3])
+            if not isinstance(sub, Poly):
+                return sub
+            if sub.const_value() is None:
+                return ('var', 'every element of `%s` contributes its own length (%s)' % (show_path(it[2]), show(sub)))
+            tot = tot + it[1] * sub
+        elif k == 'RESIZE':
+            pass
+    return tot
+
+
 def flatten(items):
     """REPEAT(n, c, [RAW(c[i], k)]) over contiguous storage is the byte block DATA(c, n*k)"""
     out = []
@@ -1329,6 +1471,24 @@ def self_check_writer(items, problems, sizes=None):
                 problems.append(('repeat-count', 'writes %s elements of `%s`, which holds %s' %
                                  (show(it[1]), show_path(it[2]), show(Poly.atom(('size', it[2])))), it[4]))
             self_check_writer(it[3], problems)
+
+
+def pair_same(A, B, problems):
+    """two writer signatures must be item-wise identical (locations ignored)"""
+    def norm(items):
+        out = []
+        for it in items:
+            if it[0] == 'REPEAT':
+                out.append(('REPEAT', it[1], it[2], norm(it[3])))
+            elif it[0] == 'FIELD':
+                out.append(('FIELD', it[1], it[2]))
+            elif it[0] in ('RAW', 'DATA'):
+                out.append(it[:3])
+            else:
+                out.append(it[:2])
+        return out
+    if norm(A) != norm(B):
+        problems.append('%s vs %s' % (' '.join(show_items(A)), ' '.join(show_items(B))))
 
 
 def pair(W, R, problems, bind=None, sizes=None):
@@ -1445,7 +1605,7 @@ def check_signatures(ctx, tu):
                  'trivially copyable types; the array wrapper types are written as length + elements whatever their '
                  'static type')
     sb = SigBuilder(tu)
-    writers, readers = {}, {}
+    writers, readers, calcs = {}, {}, {}
     nprobe = 0
     for f in sorted(tu.functions.values(), key=lambda x: (x['f'], x['l'])):
         if not f['q'].startswith(PROBE_NS) or tu.body(f) is None or f.get('rec'):
@@ -1469,8 +1629,12 @@ def check_signatures(ctx, tu):
         except Undecided as u:
             ctx.undecided(R2, '%s for %s' % (pattern_sig(tu, callee), ty), str(u), tu.fn_loc(callee))
             continue
-        (writers if d == 'w' else readers).setdefault(ty, (callee, items, f))
-    ctx.floor(R2, nprobe, 30, 'stream operator probes in drivers/c15_streams.cpp: 36')
+        stream_ty = bare_type(f['params'][0]['ct']) if f.get('params') else ''
+        if stream_ty == NET + 'WriteSizeCalculator':
+            calcs.setdefault(ty, (callee, items, f))
+        else:
+            (writers if d == 'w' else readers).setdefault(ty, (callee, items, f))
+    ctx.floor(R2, nprobe, 50, 'stream operator probes in drivers/c15_streams.cpp: 58')
     npairs = 0
     # ---- raw images must be of trivially copyable types
     raws = {}
@@ -1536,6 +1700,45 @@ def check_signatures(ctx, tu):
         else:
             ctx.ok(R2, inst, 'writer: %s; reader: %s' % (wsig, rsig), tu.fn_loc(wf))
     ctx.floor(R2, npairs, 20, 'raw-image types + writer/reader pairs on the pinned tree: 27')
+    # ---- R-C15-5: the operator selected for a WriteSizeCalculator accounts the bytes the WriteStream operator emits
+    R5 = 'R-C15-5'
+    ctx.describe(R5, 'for every written type the operator that overload resolution selects when the stream is a '
+                 'WriteSizeCalculator is the one selected for a WriteStream, or accounts exactly the same number of bytes')
+    n5 = 0
+    for ty, (wf, W, wp) in sorted(writers.items()):
+        c = calcs.get(ty)
+        if c is None:
+            ctx.broken('%s: no WriteSizeCalculator probe for `%s`' % (R5, ty))
+            continue
+        cf, C, cp = c
+        n5 += 1
+        inst = 'size of %s' % ty
+        if cf['id'] == wf['id']:
+            ctx.ok(R5, inst, 'same operator %s as for a WriteStream (and WriteSizeCalculator::write adds exactly size)'
+                   % pattern_sig(tu, wf), tu.fn_loc(cp))
+            continue
+        tw, tc = total_bytes(flatten(W)), total_bytes(flatten(C))
+        key = '%s|%s|%s|size-prediction' % (R5, tu.fn_file(cf), pattern_sig(tu, cf))
+        if isinstance(tw, Poly) and isinstance(tc, Poly):
+            if tw == tc:
+                ctx.ok(R5, inst, 'a separate operator for the calculator accounts %s bytes, as written' % show(tc), tu.fn_loc(cf))
+            else:
+                ctx.violation(R5, inst, 'for a WriteSizeCalculator overload resolution selects %s, which accounts %s bytes; the '
+                              'operator used for real streams emits %s bytes' % (pattern_sig(tu, cf), show(tc), show(tw)),
+                              tu.fn_loc(cf), key=key)
+        elif isinstance(tc, Poly):
+            ctx.violation(R5, inst, 'for a WriteSizeCalculator overload resolution selects %s, which accounts the fixed formula %s '
+                          'bytes; the operator used for real streams emits a length that depends on the elements: %s (signature %s)'
+                          % (pattern_sig(tu, cf), show(tc), tw[1], ' '.join(show_items(flatten(W)))), tu.fn_loc(cf), key=key)
+        else:
+            problems = []
+            pair_same(flatten(W), flatten(C), problems)
+            if problems:
+                ctx.undecided(R5, inst, 'the calculator operator %s differs structurally from the stream operator: %s'
+                              % (pattern_sig(tu, cf), problems[0]), tu.fn_loc(cf))
+            else:
+                ctx.ok(R5, inst, 'a separate operator with the same wire signature', tu.fn_loc(cf))
+    ctx.floor(R5, n5, 20, 'written probe types: 22')
 
 
 def trivially_copyable_witness(ctx, tu, types):
